@@ -10,14 +10,16 @@ CLAIMS = {
    "thread exits and wait() is Ok (safety + liveness under fairness), disconnect without shutdown is an error, the peer sees EOF. Every "
    "complete schedule is driven through the instrumented hold points and a blocking handler of a real daemon; TLC replays the executed "
    "commands as model actions and compares wait(), peer EOF, restart, repeated shutdown, thread count; serve() is cut at every byte offset. "
-   "Also: the daemon thread blocked in the write of a reply (flooding peer), wait() entered before the shutdown requests, and wait() while "
-   "other callers are parked between the two steps of their request.",
+   "Also: the daemon thread blocked in the write of a reply (flooding peer), wait() entered before the shutdown requests, wait() while "
+   "other callers are parked between the two steps of their request, eventfd- and pipe-backed exit events, every drop on a guarded helper thread.",
    "TLA+ model checking incl. liveness (TLC) + schedule replay over hold points + TLC trace validation"),
  "C12": ("model_checking", "2/C12",
    "VringConc.tla (worker loop x daemon thread micro-steps x guest kicks over level-triggered epoll/eventfd) is model-checked for all "
-   "interleavings of six scenarios: 'no lost kick' and 'worker survives' hold on the model, 'no dispatch after the reply' is refuted "
-   "(check-then-act window, recorded as known findings). Every complete schedule is driven through the instrumented hold points of a "
-   "real daemon and the recorded events are validated by TLC against the two clauses of the property.",
+   "interleavings of eight scenarios (incl. stop/restart with the same eventfd, two kicks without control messages; the handler's entry and "
+   "return are separate steps): 'no lost kick' and 'worker survives' hold on the repaired model (TLC refuted 'no lost kick' on the pinned "
+   "design: fix 508b844), 'no dispatch after the reply' is refuted (check-then-act window, recorded as known findings). Every complete "
+   "schedule is driven through the instrumented hold points of a real daemon (a worker woken when the model says it cannot be runs on) and "
+   "the recorded events are validated by TLC against the two clauses of the property.",
    "TLA+ model checking of all interleavings (TLC) + schedule replay over hold points + TLC trace validation"),
  "C11": ("model_checking", "2/C11",
    "VringLifecycle.tla (ring started/enabled/kick/pending per the protocol) is model-checked (every (state, letter) transition of the "
@@ -27,17 +29,19 @@ CLAIMS = {
    "TLA+ model checking (TLC) + model-based test generation + TLC trace validation"),
  "C13": ("model_checking", "2/C13",
    "MemTable.tla over a pool of adjacent/overlapping/far/duplicate regions: every (table, update) transition and all depth-3/4 histories "
-   "are replayed on a real daemon with concrete 64-bit geometries; bytes are cross-probed through the backing files and the backend's "
+   "are replayed on a real daemon with concrete 64-bit geometries (incl. a user range ending at 2^64 and read-only descriptors, whose "
+   "acceptance is left open); bytes are cross-probed through the backing files and the backend's "
    "guest memory, update_memory snapshots/counts and SET_VRING_ADDR translations are validated by TLC.",
    "TLA+ model checking (TLC) + model-based test generation + TLC trace validation"),
  "C14": ("model_checking", "2/C14",
    "RingConfig.tla post-conditions over all depth-2/3 letter histories (sizes, bases, used indexes, feature masks, out-of-range ring "
-   "indexes, protocol-feature subsets + backend-request channel, call descriptors, backend ring use on a switched memory table); the "
+   "indexes, protocol-feature subsets + backend-request channel, call descriptors, backend ring use on a switched memory table, ring "
+   "addresses after a refused ADD_MEM_REG) against two devices that offer different feature masks; the "
    "backend-visible queue state is sampled inside the event handler after every letter and validated by TLC.",
    "TLA+ model checking (TLC) + model-based test generation + TLC trace validation"),
  "C15": ("model_checking", "2/C15",
    "DirtyLog.tla page arithmetic over histories of table changes, SET_LOG_BASE (too small to ample, offsets) and writes crossing page and "
-   "region boundaries; the shared log file and guard bytes are read after every write and the set of newly set bits is validated by TLC. "
+   "region boundaries, also through buffer handles resolved before the log was installed; the shared log file and guard bytes are read after every write and the set of newly set bits is validated by TLC. "
    "The concurrent-writer clause is an exploration-level stress whose rounds are each checked for a lost bit.",
    "TLA+ model checking (TLC) + model-based test generation + TLC trace validation; stress for the race clause"),
  "C17": ("model_checking", "2/C17",
@@ -65,7 +69,7 @@ CLAIMS = {
    "TxnAtomicity.tla is model-checked (all interleavings of 2-3 callers over lock, hold points and peer; safety, deadlock-freedom, "
    "termination under fairness); every schedule TLC finds is driven through the instrumented hold points of the real endpoints and the "
    "recorded event order is validated by TLC against the specification; uncontrolled stress traces are validated the same way. Every public "
-   "operation of the three proxies takes its turn; a caller dying inside its transaction (Crash action) and temporary receive conditions while "
+   "operation of the three proxies (30 Frontend, 5 Backend, 12 GpuBackend) takes its turn; a caller dying inside its transaction (Crash action) and temporary receive conditions while "
    "waiting for an answer are part of the schedules.",
    "TLA+ model checking of all interleavings (TLC) + schedule replay over hold points + TLC trace validation"),
  "C05": ("exploration", "2/C05",
@@ -85,14 +89,16 @@ CLAIMS = {
    "evaluated by TLC against it: header, payload bytes, descriptors (also under partial writes), and decode in the opposite direction.",
    "TLA+ transcription of the wire format evaluated by TLC on recorded byte traces (model-based differential testing)"),
  "C18": ("model_checking", "2/C18",
-   "BackendReqChannel.tla is model-checked over all flag/request histories to the cfg depth; every history is replayed through the real "
+   "BackendReqChannel.tla is model-checked over all flag/request histories to the cfg depth, starting from every consistent flag setting "
+   "and including flag calls that change nothing; every history is replayed through the real "
    "proxy and the real FrontendReqHandler (pair, proxy-vs-raw-peer, raw-peer-vs-server) and TLC validates handler invocation, arguments, "
    "file identity, proxy result and the acknowledgement value on the wire.",
    "TLA+ model checking (TLC) + model-based test generation + TLC trace validation"),
  "C02": ("model_checking", "2/C02",
    "TLC explores every (joint negotiation state, frontend call) transition of Session.tla (FrontendEndpoint || BackendServer); every "
    "transition is replayed on the real Frontend<->BackendReqHandler pair and the recorded trace is validated by TLC against the same "
-   "specification (exactly one handler invocation with equal arguments/files; rejected calls put nothing on the wire).",
+   "specification (exactly one handler invocation with equal arguments/files; rejected calls put nothing on the wire); the real Frontend "
+   "is also run against an independent peer that acknowledges by the protocol's rules (a call must not return before its acknowledgement).",
    "TLA+ model checking (TLC) + model-based test generation + TLC trace validation"),
  "C03": ("model_checking", "2/C03",
    "Same Session model; the scripted handler outcome (success values, failure, unusable shapes) is a model choice; TLC predicts ok/err/hang "
